@@ -292,13 +292,15 @@ def extra_qubits(ops):
     return sorted(ex)
 
 
-def ignored_profile(circuit):
+def ignored_profile(circuit, skip_co=False):
     """Per-qubit sequence of the operations carrying the ignored tag (top level) + multiset of zero-qubit ones."""
     per_q = {}
     zero = collections.Counter()
     for moment in circuit:
         for op in moment.operations:
             if IGN in op.tags:
+                if skip_co and isinstance(op.untagged, cirq.CircuitOperation):
+                    continue
                 if not op.qubits:
                     zero[op] += 1
                 for q in op.qubits:
@@ -306,19 +308,32 @@ def ignored_profile(circuit):
     return per_q, zero
 
 
-def deep_ignored_counter(circuit, mult=1, out=None):
+def deep_ignored_counter(circuit, mult=1, out=None, skip_co=False):
     """Multiset of ignored-tag operations at every nesting level (not descending into ignored sub-circuits)."""
     if out is None:
         out = collections.Counter()
     for moment in circuit:
         for op in moment.operations:
             if IGN in op.tags:
+                if skip_co and isinstance(op.untagged, cirq.CircuitOperation):
+                    continue
                 out[op] += mult
             elif isinstance(op.untagged, cirq.CircuitOperation):
                 u = op.untagged
                 reps = int(u.repetitions) if isinstance(u.repetitions, (int, np.integer)) else 1
-                deep_ignored_counter(u.circuit, mult * abs(reps), out)
+                deep_ignored_counter(u.circuit, mult * abs(reps), out, skip_co)
     return out
+
+
+def _is_subseq(small, big):
+    it = iter(big)
+    return all(any(x == y for y in it) for x in small)
+
+
+def _profile_subseq(want, got):
+    wq, wz = want
+    gq, gz = got
+    return all(_is_subseq(v, gq.get(q, [])) for q, v in wq.items()) and all(gz.get(k, 0) >= n for k, n in wz.items())
 
 
 def co_profile(circuit, keep_pred):
@@ -469,7 +484,8 @@ def rw_unroll(co):
 
 class Cfg:
     def __init__(self, name, fn, family, rel, *, deep=True, oracle="same", ign="strict", consumable=None,
-                 randomized=False, layouts=(0, 1), ctx="std", full=True, tol=None, rel_len=None):
+                 randomized=False, layouts=(0, 1), ctx="std", full=True, tol=None, rel_len=None, ign_skip_co=False,
+                 target=None, max_targets=None):
         self.name = name
         self.fn = fn                  # fn(circuit, context, chooser) -> result
         self.family = family
@@ -484,6 +500,9 @@ class Cfg:
         self.full = full              # take part in the full-alphabet enumeration
         self.tol = tol                # drop_negligible atol
         self.rel_len = rel_len        # override of the relevant-sequence length (for path explosion)
+        self.ign_skip_co = ign_skip_co  # ignored-tag CircuitOperations are unrolled by documented design (defer_measurements)
+        self.target = target          # predicate: operation is a gauge target (randomized passes)
+        self.max_targets = max_targets  # sequences with more gauge targets are not enumerated (path explosion)
 
 
 def _gen(ch):
@@ -566,8 +585,10 @@ def make_configs():
     add("expand_composite", lambda c_, ctx, ch: cirq.expand_composite(c_, context=ctx), "expand", R_EXPAND, consumable=ALL)
     add("expand_composite[keep CZ,H]", lambda c_, ctx, ch: cirq.expand_composite(
         c_, context=ctx, no_decomp=lambda op: isinstance(op.gate, (cirq.CZPowGate, cirq.HPowGate))), "expand", R_EXPAND, consumable=ALL)
-    add("eject_z", lambda c_, ctx, ch: cirq.eject_z(c_, context=ctx), "eject_z", R_EJZ)
-    add("eject_z[param]", lambda c_, ctx, ch: cirq.eject_z(c_, context=ctx, eject_parameterized=True), "eject_z", R_EJZ_P)
+    # eject_z finishes with unroll_circuit_op: sub-circuits carrying the reserved '<mapped_circuit_op>' tag are unrolled
+    add("eject_z", lambda c_, ctx, ch: cirq.eject_z(c_, context=ctx), "eject_z", R_EJZ, consumable=HAS_MAPPED)
+    add("eject_z[param]", lambda c_, ctx, ch: cirq.eject_z(c_, context=ctx, eject_parameterized=True), "eject_z", R_EJZ_P,
+        consumable=HAS_MAPPED)
     add("eject_phased_paulis", lambda c_, ctx, ch: cirq.eject_phased_paulis(c_, context=ctx), "eject_pp", R_EJP)
     add("eject_phased_paulis[param]", lambda c_, ctx, ch: cirq.eject_phased_paulis(c_, context=ctx, eject_parameterized=True),
         "eject_pp", R_EJP_P)
@@ -615,7 +636,7 @@ def make_configs():
         lambda c_, ctx, ch: cirq.symbolize_single_qubit_gates_by_indexed_tags(
             cirq.index_tags(c_, context=cirq.TransformerContext(deep=ctx.deep), target_tags={"T"}), context=ctx,
             symbolize_tag=T.SymbolizeTag(prefix="T")),
-        "tags", R_TAGS, oracle="symbolize", consumable=ALL)
+        "tags", R_TAGS, oracle="symbolize", consumable=ALL, ign="none")
     add("merge_single_qubit_gates_to_phxz_symbolized",
         lambda c_, ctx, ch: cirq.merge_single_qubit_gates_to_phxz_symbolized(c_, context=ctx, sweep=_input_sweep()),
         "tags", R_SYMB, oracle="sweep_pair", consumable=_unitary_upto(1))
@@ -624,12 +645,14 @@ def make_configs():
     add("drop_negligible_operations", lambda c_, ctx, ch: cirq.drop_negligible_operations(c_, context=ctx), "drop", R_DROP, tol=1e-8)
     add("drop_negligible_operations[atol=1e-3]", lambda c_, ctx, ch: cirq.drop_negligible_operations(c_, context=ctx, atol=1e-3),
         "drop", R_DROP, tol=1e-3)
-    add("drop_diagonal_before_measurement", lambda c_, ctx, ch: cirq.drop_diagonal_before_measurement(c_, context=ctx), "diag", R_DIAG)
+    add("drop_diagonal_before_measurement", lambda c_, ctx, ch: cirq.drop_diagonal_before_measurement(c_, context=ctx), "diag", R_DIAG,
+        consumable=HAS_MAPPED)
     # ---- measurement transformers
     add("synchronize_terminal_measurements", lambda c_, ctx, ch: cirq.synchronize_terminal_measurements(c_, context=ctx), "meas", R_MEAS2)
     add("synchronize_terminal_measurements[after=False]",
         lambda c_, ctx, ch: cirq.synchronize_terminal_measurements(c_, context=ctx, after_other_operations=False), "meas", R_MEAS2)
-    add("defer_measurements", lambda c_, ctx, ch: cirq.defer_measurements(c_, context=ctx), "defer", R_MEAS, oracle="defer", consumable=ALL)
+    add("defer_measurements", lambda c_, ctx, ch: cirq.defer_measurements(c_, context=ctx), "defer", R_MEAS, oracle="defer", consumable=ALL,
+        ign_skip_co=True)
     add("dephase_measurements", lambda c_, ctx, ch: cirq.dephase_measurements(c_, context=ctx), "meas", R_MEAS2, oracle="dephase")
     add("drop_terminal_measurements", lambda c_, ctx, ch: cirq.drop_terminal_measurements(c_, context=ctx), "meas", R_MEAS2,
         oracle="drop_terminal")
@@ -649,20 +672,25 @@ def make_configs():
         lambda c_, ctx, ch: merge_swap_rzz_and_2q_unitaries(c_, context=ctx, intermediate_result_tag="inter"), "google", R_GOOG,
         consumable=_unitary_upto(2))
     # ---- randomized gauge transformers (every gauge is taken)
+    # (name, transformer, relevant alphabet, gauges per target, max targets per circuit, max targets for as_sweep)
     gts = [
-        ("CZGaugeTransformer", T.CZGaugeTransformer, R_CZG, 3),
-        ("ISWAPGaugeTransformer", T.ISWAPGaugeTransformer, R_ISWG, 3),
-        ("SqrtCZGaugeTransformer", T.SqrtCZGaugeTransformer, R_SQCZG, 3),
-        ("SqrtISWAPGaugeTransformer", T.SqrtISWAPGaugeTransformer, R_SQISWG, 3),
-        ("CPhaseGaugeTransformer", CPhaseGaugeTransformer, R_CPH, 3),
-        ("SpinInversionGaugeTransformer", T.SpinInversionGaugeTransformer, R_SPIN, 3),
-        ("cirq_google.SYCGaugeTransformer", cirq_google.transformers.SYCGaugeTransformer, R_SYC, 3),
+        ("CZGaugeTransformer", T.CZGaugeTransformer, R_CZG, 16, 2, 1),
+        ("ISWAPGaugeTransformer", T.ISWAPGaugeTransformer, R_ISWG, 28, 2, 1),
+        ("SqrtCZGaugeTransformer", T.SqrtCZGaugeTransformer, R_SQCZG, 3, 3, 2),
+        ("SqrtISWAPGaugeTransformer", T.SqrtISWAPGaugeTransformer, R_SQISWG, 8, 3, 1),
+        ("CPhaseGaugeTransformer", CPhaseGaugeTransformer, R_CPH, 16, 2, 1),
+        ("SpinInversionGaugeTransformer", T.SpinInversionGaugeTransformer, R_SPIN, 2, 3, 2),
+        ("cirq_google.SYCGaugeTransformer", cirq_google.transformers.SYCGaugeTransformer, R_SYC, 8, 3, 1),
     ]
-    for name, tr, rel, rl in gts:
+    for name, tr, rel, _npaths, mt, mts in gts:
+        tp = (lambda tr: lambda op: IGN not in op.tags and op.gate is not None and len(op.qubits) == 2 and op in tr.target)(tr)
         add(name, (lambda tr: lambda c_, ctx, ch: tr(c_, context=ctx, prng=_gen(ch)))(tr), "gauge", rel, deep=False, randomized=True,
-            full=True, rel_len=rl)
+            full=True, rel_len=3, target=tp, max_targets=mt)
         add(name + ".as_sweep[N=1]", (lambda tr: lambda c_, ctx, ch: tr.as_sweep(c_, N=1, context=ctx, prng=_gen(ch)))(tr), "gauge_sweep",
-            rel, deep=False, randomized=True, oracle="sweep", full=False, rel_len=2, layouts=(0,))
+            rel, deep=False, randomized=True, oracle="sweep", full=False, rel_len=2, layouts=(0,), target=tp, max_targets=mts)
+        if _npaths <= 3:
+            add(name + ".as_sweep[N=2]", (lambda tr: lambda c_, ctx, ch: tr.as_sweep(c_, N=2, context=ctx, prng=_gen(ch)))(tr), "gauge_sweep",
+                rel, deep=False, randomized=True, oracle="sweep", full=False, rel_len=2, layouts=(1,), target=tp, max_targets=1)
     add("CPhaseGaugeTransformerMM", lambda c_, ctx, ch: T.CPhaseGaugeTransformerMM()(c_, context=ctx, rng_or_seed=_gen(ch)), "gauge_mm",
         R_CPHMM, deep=False, randomized=True, full=True, rel_len=3)
     for gname, gauges, ml in (("pauli", "pauli", 1), ("SHT", (cirq.S, cirq.H, cirq.T), 2)):
@@ -671,7 +699,7 @@ def make_configs():
                 (lambda gauges, ml, beg, end: lambda c_, ctx, ch: GC.IdleMomentsGauge(ml, gauges=gauges, gauge_beginning=beg, gauge_ending=end)(
                     c_, context=ctx, rng_or_seed=_gen(ch)))(gauges, ml, beg, end),
                 "gauge_idle", R_IDLE, deep=False, randomized=True, full=(gname == "pauli" and not beg), rel_len=3, layouts=(1,))
-    add("RandomizedMeasurements[pauli]", lambda c_, ctx, ch: T.RandomizedMeasurements()(c_, "pauli", _gen(ch), context=ctx), "randmeas",
+    add("RandomizedMeasurements[pauli]", lambda c_, ctx, ch: T.RandomizedMeasurements()(c_, unitary_ensemble="pauli", rng=_gen(ch), context=ctx), "randmeas",
         ["X(a)", "CZ(a,b)", "M(b;m)", "Moment()"], deep=False, randomized=True, oracle="randmeas", ign="none", full=False, rel_len=2,
         consumable=ALL)
     return C
@@ -698,14 +726,14 @@ def _fmt(inp, cfg, deep, out=None, extra=""):
     return s + extra
 
 
-def compare_meanings(m_in: Meaning, out_ops, *, extras_ok=False, states=True, atol_u=ATOL, atol_d=1e-7, tol_dist=None):
+def compare_meanings(m_in: Meaning, out_ops, *, extras_ok=False, states=True, atol_u=ATOL, atol_d=1e-7, tol_dist=None, records_only=False):
     """None when the two meanings agree, else a message."""
     ex = extra_qubits(out_ops)
     if ex and not extras_ok:
         return f"output acts on qubits outside the input register: {ex}"
     qs = QS + tuple(ex)
     m_out = Meaning(out_ops, qs)
-    if not ex:
+    if not ex and not records_only:
         u_in = m_in.unitary()
         if u_in is not None:
             u_out = m_out.unitary()
@@ -723,7 +751,7 @@ def compare_meanings(m_in: Meaning, out_ops, *, extras_ok=False, states=True, at
     d_out = m_out.dist(_PSI)
     if tol_dist is not None:
         atol_d = max(atol_d, 4 * tol_dist)
-    return interp.compare_dists(d_in, d_out, atol=atol_d, states=states)
+    return interp.compare_dists(d_in, d_out, atol=atol_d, states=states and not records_only)
 
 
 def check_output(cfg, inp: Input, deep, out, counters):
@@ -741,14 +769,20 @@ def check_output(cfg, inp: Input, deep, out, counters):
         pass
     # (iii) ignored operations
     if cfg.ign != "none" and cfg.ctx == "std":
+        want_ign, want_deep = inp.ign, inp.deep_ign
+        if cfg.ign_skip_co:
+            want_ign, want_deep = ignored_profile(inp.circuit, True), deep_ignored_counter(inp.circuit, skip_co=True)
         if cfg.ign == "strict":
-            got = ignored_profile(out)
-            if got != inp.ign:
+            got = ignored_profile(out, cfg.ign_skip_co)
+            # a pass that may consume an (un-ignored) CircuitOperation as an opaque operation surfaces its inner ops
+            surfacing = any(cfg.consumable(op) for m_ in inp.circuit for op in m_.operations
+                            if isinstance(op.untagged, cirq.CircuitOperation) and IGN not in op.tags)
+            if (not _profile_subseq(want_ign, got)) if surfacing else (got != want_ign):
                 return bad("operations tagged with an ignored tag were changed, lost, duplicated or reordered\n" + _fmt(inp, cfg, deep, out),
                            kind="ignored_op_changed", **sig)
         if cfg.ign == "multiset" or deep:
-            got = deep_ignored_counter(out)
-            if got != inp.deep_ign:
+            got = deep_ignored_counter(out, skip_co=cfg.ign_skip_co)
+            if (any(got[k] < n for k, n in want_deep.items())) if cfg.ign_skip_co else (got != want_deep):
                 return bad("multiset of operations tagged with an ignored tag changed\n" + _fmt(inp, cfg, deep, out), kind="ignored_op_changed", **sig)
     # (iv) sub-circuits untouched without deep
     if not deep:
@@ -856,7 +890,7 @@ def _dropped_measurements(inp, ri, deep):
 
 
 def o_lightcone(cfg, inp, deep, out, out_flat, sweep):
-    return o_same(cfg, inp, deep, out, out_flat, sweep, states=False)
+    return o_same(cfg, inp, deep, out, out_flat, sweep, records_only=True)
 
 
 def _pairs(inp, out):
@@ -1241,6 +1275,12 @@ def _init(seed):
     _INCACHE.clear()
 
 
+WIDE = ["X(a)", "Z(a)", "X(b)", "Y(b)^.5", "T(a)", "Z(a)^g", "W(a;p=g)", "W(b;p=g2)^g", "PhXZ(a;x=g,z=g2,a=.25)", "H(a)", "H(b)",
+        "rx(g)(c)", "CZ(a,b)", "CZ(b,c)", "CZ(a,b)^g", "CNOT(a,b)", "ISWAP(a,b)", "SWAP(a,b)", "ZZ(a,b)^g", "M(a;m)", "M(b;m)",
+        "M(a,b;k,inv=10)", "X(b)?m", "Z(c)?k", "X(a)[ignore]", "CZ(a,b)[ignore]", "SUB[H(a),CZ(a,b),Y(b)[ignore],Z(a)^g]",
+        "SUBx2[X(b)^.5,Z(b)^g2]", "SUB[H(c),M(c;s)]", "X(a)^s", "GP(1j)", "Moment()"]
+
+
 def _seqs(alpha, lengths):
     out = []
     for L in lengths:
@@ -1250,14 +1290,34 @@ def _seqs(alpha, lengths):
     return out
 
 
+def _n_targets(seq, cfg):
+    if cfg.target is None:
+        return 0
+    return sum(1 for i in seq if not isinstance(_L[i].item, cirq.Moment) and cfg.target(_L[i].item))
+
+
+def _emit(cases, seq, layouts, cfgs):
+    """Append (seq, layout, cfg, deep) for every admissible combination, circuit-major (the input reference is cached)."""
+    for layout in layouts:
+        if len(seq) == 1 and layout == 1 and not isinstance(_L[seq[0]].item, cirq.Moment) and any(0 in cfg.layouts for _, cfg in cfgs):
+            continue  # a single operation gives the same circuit in both layouts
+        for ci, cfg in cfgs:
+            if layout not in cfg.layouts:
+                continue
+            if cfg.max_targets is not None and _n_targets(seq, cfg) > cfg.max_targets:
+                continue
+            for deep in ((0, 1) if cfg.deep else (0,)):
+                cases.append((seq, layout, ci, deep))
+
+
 def stages(tier, seed):
     _init(seed)
     reset = lambda: _init(seed)
     full_alpha = [i for i, le in enumerate(_L) if le.full]
+    wide_alpha = [_IDX[n] for n in WIDE]
     quick = tier == "quick"
-    full_lengths = (1, 2) if quick else (1, 2, 3)
-    rel_lengths = (3,) if quick else (3, 4)
-    full_seqs = _seqs(full_alpha, full_lengths)
+    full_seqs = _seqs(full_alpha, (1, 2))
+    wide3 = [] if quick else [sq for sq in _seqs(wide_alpha, (3,))]
     families = []
     for cfg in _CFG:
         if cfg.family not in families:
@@ -1266,52 +1326,39 @@ def stages(tier, seed):
     for fam in families:
         cfgs = [(ci, cfg) for ci, cfg in enumerate(_CFG) if cfg.family == fam]
         cases = []
-        # full-alphabet sequences: circuit-major order so that the input's reference meaning is computed once
         fcfgs = [(ci, cfg) for ci, cfg in cfgs if cfg.full]
+        # (1) every sequence of length <= 2 over the full alphabet, both layouts, deep in {F,T}
         if fcfgs:
             for seq in full_seqs:
-                if len(seq) == 3:
-                    # thorough: length-3 sequences over the full alphabet, packed layout, randomized passes excluded (path explosion)
-                    for ci, cfg in fcfgs:
-                        if cfg.randomized:
-                            continue
-                        for deep in ((0, 1) if cfg.deep else (0,)):
-                            cases.append((seq, cfg.layouts[0], ci, deep))
-                    continue
-                for layout in (0, 1):
-                    if len(seq) == 1 and layout == 1 and not isinstance(_L[seq[0]].item, cirq.Moment):
-                        continue
-                    for ci, cfg in fcfgs:
-                        if layout not in cfg.layouts:
-                            continue
-                        for deep in ((0, 1) if cfg.deep else (0,)):
-                            cases.append((seq, layout, ci, deep))
-        # relevant sub-alphabets (grouped so that configurations sharing one are adjacent)
+                _emit(cases, seq, (0, 1), fcfgs)
+        # (2) relevant sub-alphabets: length 3 (quick) / 3 and 4 on the first 9 letters (thorough)
         groups = collections.OrderedDict()
         for ci, cfg in cfgs:
             groups.setdefault((tuple(cfg.rel), cfg.rel_len, cfg.full), []).append((ci, cfg))
         for (rel, rel_len, isfull), g in groups.items():
             alpha = [_IDX[n] for n in rel]
-            if rel_len is None:
-                lens = rel_lengths
-            elif quick:
-                lens = tuple(range(1 if not isfull else 3, rel_len + 1))
-            else:
-                lens = tuple(range(1 if not isfull else 3, rel_len + 2))
-            # letters outside the full alphabet have not been seen at length 1..2: enumerate those too
-            if any(not _L[i].full for i in alpha) and isfull:
-                lens = tuple(sorted(set(lens) | {1, 2}))
-            for seq in _seqs(alpha, lens):
+            top = rel_len if rel_len is not None else 3
+            lens = set(range(3 if isfull else 1, top + 1))
+            if isfull and any(not _L[i].full for i in alpha):
+                lens |= {1, 2}  # extra letters have not been seen by (1)
+            for seq in _seqs(alpha, sorted(lens)):
                 if isfull and len(seq) <= 2 and all(_L[i].full for i in seq):
-                    continue  # already part of the full enumeration
-                for layout in (0, 1):
-                    if len(seq) == 1 and layout == 1 and not isinstance(_L[seq[0]].item, cirq.Moment) and 0 in g[0][1].layouts:
-                        continue
-                    for ci, cfg in g:
-                        if layout not in cfg.layouts:
-                            continue
-                        for deep in ((0, 1) if cfg.deep else (0,)):
-                            cases.append((seq, layout, ci, deep))
+                    continue  # already enumerated by (1)
+                _emit(cases, seq, (0, 1), g)
+            if not quick and top >= 3:
+                nondet = any(cfg.randomized for _, cfg in g)
+                for seq in _seqs(alpha[:6 if nondet else 9], (4,)):
+                    _emit(cases, seq, (0,) if any(0 in cfg.layouts for _, cfg in g) else (1,), g)
+        # (3) thorough: length 3 over the wide alphabet, packed layout, deep=False, deterministic passes
+        if not quick:
+            wcfgs = [(ci, cfg) for ci, cfg in fcfgs if not cfg.randomized]
+            if wcfgs:
+                relsets = {ci: set(_IDX[n] for n in cfg.rel) for ci, cfg in wcfgs}
+                for seq in wide3:
+                    for ci, cfg in wcfgs:
+                        if set(seq) <= relsets[ci]:
+                            continue  # enumerated by (2)
+                        cases.append((seq, cfg.layouts[0], ci, 0))
         out.append(CaseStage(fam, cases, run_case, reset=reset, describe=describe))
     # qubit management
     qml = range(len(_QM_L))
